@@ -27,6 +27,8 @@ Next ==
   /\ LET e == TraceLog[l] IN
      CASE e.ev = "queued" ->
             /\ queued' = queued \cup {e.id} /\ UNCHANGED <<kind, fins, entered, reqs>>
+       [] e.ev = "lq.claim" ->     \* rows taken from the queue (outlinks queued during the run included)
+            /\ queued' = queued \cup {e.ids[i] : i \in 1..Len(e.ids)} /\ UNCHANGED <<kind, fins, entered, reqs>>
        [] e.ev = "site" ->
             /\ kind' = (e.id :> e.kind) @@ kind /\ UNCHANGED <<queued, fins, entered, reqs>>
        [] e.ev = "req" ->
